@@ -148,7 +148,44 @@ def main():
         m = ["float", "5", "2"]
         reach_cases.append({"op": "in_unit", "a": {"m": m, "u": [[None, n, 1]]}, "b": coh, "name": n, "dir": "to"})
         reach_cases.append({"op": "in_unit", "a": {"m": m, "u": coh}, "b": [[None, n, 1]], "name": n, "dir": "from"})
-    r = impl("convsys_worker.py", {"systems": True, "cases": reach_cases})
+    # ... and, in the same process AFTER all of those conversions, both sides of every declared equivalence are taken to the coherent SI unit:
+    # 1 a and r b must arrive at the same number (edges already reported as inconsistent above excepted)
+    def coherent(dims):
+        out_ = []
+        for i_, e_ in dims:
+            g_ = gen_by_dim.get(i_)
+            if g_ is None: return None
+            out_.append(["kilo", "gram", e_] if g_ == "gram" else [None, g_, e_])
+        return out_
+    def spec_of(u_):
+        return ([[list(u_["p"]), "one", 1]] if u_["p"] != [0, 0] else []) + [[None, names[k_], e_] for k_, e_ in u_["f"]]
+    badkeys = {(convlib.ukey(a_), convlib.ukey(b_)) for a_, b_, _, _ in bad} | {(convlib.ukey(b_), convlib.ukey(a_)) for a_, b_, _, _ in bad}
+    edge_cases, edge_meta = [], []
+    for a_, b_, r_ in exp["ratios"]:
+        if isinstance(a_["p"], dict) or isinstance(b_["p"], dict) or not a_["d"] or (convlib.ukey(a_), convlib.ukey(b_)) in badkeys: continue
+        if any(names[k_] in ("celsius", "fahrenheit") for k_, _ in a_["f"] + b_["f"]): continue
+        coh_ = coherent(a_["d"])
+        if coh_ is None or a_["d"] != b_["d"]: continue
+        n_, d_ = (int(r_[1]), int(r_[2])) if len(r_) == 3 else (None, None)
+        if n_ is None: continue
+        edge_cases.append({"op": "in_unit", "a": {"m": ["int", "1", "1"], "u": spec_of(a_)}, "b": coh_})
+        edge_cases.append({"op": "in_unit", "a": {"m": [r_[0], r_[1], r_[2]], "u": spec_of(b_)}, "b": coh_})
+        edge_meta.append((a_, b_, max(1, sum(abs(e_) for _, e_ in a_["d"]))))
+    r = impl("convsys_worker.py", {"systems": True, "cases": reach_cases + edge_cases})
+    er = r["results"][len(reach_cases):]
+    r["results"] = r["results"][:len(reach_cases)]
+    nedge = 0
+    for j_, (a_, b_, deg_) in enumerate(edge_meta):
+        ra_, rb_ = er[2 * j_], er[2 * j_ + 1]
+        c.count({"edge-through-si": [us(a_), us(b_)]})
+        if "err" in ra_ or "err" in rb_ or "setup_err" in ra_ or "setup_err" in rb_ or len(ra_["m"]) != 3 or len(rb_["m"]) != 3: continue
+        va_, vb_ = frac(ra_["m"]), frac(rb_["m"])
+        nedge += 1
+        if abs(va_ - vb_) > Fraction(1, 10**5) * deg_ * max(abs(va_), abs(vb_)):
+            c.violation("edge-through-si:" + " = ".join(sorted([us(a_), us(b_)])), f"after every named unit has been converted to SI and back, the declared {us(a_)} = {float(frac(edge_cases[2 * j_ + 1]['a']['m']))} {us(b_)} "
+                        f"arrives at {float(va_)} and {float(vb_)} in the coherent SI unit", {"edge": [us(a_), us(b_)], "si_values": [float(va_), float(vb_)], "left": edge_cases[2 * j_], "right": edge_cases[2 * j_ + 1],
+                        "how": "harness/impl/convsys_worker.py: the reach cases (every named unit to and from SI, in name order) followed by these two conversions, in one process"})
+    c.cov["declared_edges_followed_to_si_after_reach"] = nedge
     info = run_block(c, "reach", r["export"], reach_cases, r["results"], Fraction(1, 10**11), shard=120)
     ex2 = r["export"]; S2 = S
     nreach = 0
